@@ -211,27 +211,26 @@ def gen_race_history(w, rng, tier, regime=None, restarts=True, ties=True, p_rewr
     """setup, then rounds of concurrent actions on one epoch, per-client shuffled delivery with
     duplication, then quiescence rounds.
 
-    `p_leave` > 0 turns the PROPOSAL flow on (C05 / C06): every such history has one of two flavours —
+    `p_leave` > 0 turns the PROPOSAL flow on (C05 / C06): every such history has one of three flavours —
       "L": members ask to leave (`leave_group`: plain members, admins, the last admin; sometimes two in one round; while
            commits are pending at the receivers; racing the round's commits), admins auto-commit, and then merge at once /
            wait for the echo / clear the auto-commit (publish failed); members craft Remove(other), GroupContextExtensions
            and PSK proposals with the MLS library;
-      "A": members craft stand-alone Add proposals (key package of an outsider nobody adds otherwise); no removals at all.
-    The flavours are separate because a commit that removes a member AND adds one lets the newcomer take the removed
-    member's leaf, which mdk does not recognise as an eviction (finding evicted-leaf-reused-undetected, replayed from
-    corpus/C06/evicted_leaf_reused.trace; the model has no leaf positions).  For the same reason no `add` is issued by an admin
-    that holds queued removals.  Not generated either: two queued removals of one member (which one a commit references
-    is decided by the proposals' hash order), a second leave of the same client."""
+      "A": members craft stand-alone Add proposals (key package of an outsider nobody adds otherwise); no removals at all;
+      "LA": both — commits that remove members AND add somebody (the newcomer takes a removed member's leaf: the case of the
+           repaired finding evicted-leaf-reused-undetected, /repo e46593e).
+    Not generated: two queued removals of one member (which one a commit references is decided by the proposals' hash
+    order), a second leave of the same client.  Not compared: an EVICTED member's pending adds / removes (`fp_view`)."""
     n = rng.choice([2, 3, 3, 4, 5] if tier == "quick" else [2, 3, 4, 5, 6])
     flavour = None
     if p_leave > 0:
-        flavour = rng.choice(["L", "L", "L", "A"])
+        flavour = rng.choice(["L", "L", "A", "LA"])
         n = max(n, 3)
         if flavour == "A":
             p_hole, p_remove, p_adv = 0.0, 0.0, 0.0
     # outsiders: clients that hold a key package but no group until an admin adds them (between rounds, uncontended)
     outsiders = rng.choice([0, 0, 1, 2]) if (p_add > 0 and n <= 4) else 0
-    if flavour == "A":
+    if flavour in ("A", "LA"):
         outsiders = max(outsiders, 1)
     backends = [rng.choice(["mem", "sql"]) for _ in range(n + outsiders)]
     nadm = rng.randint(1, n)
@@ -244,7 +243,7 @@ def gen_race_history(w, rng, tier, regime=None, restarts=True, ties=True, p_rewr
         w.meta["flavour"] = flavour
     w.setup_group(n, backends, admins, retention, outsiders=outsiders)
     pool = list(range(n, n + outsiders))
-    reserved = pool.pop() if flavour == "A" else None     # the outsider whose key package the crafted Add proposals carry
+    reserved = pool.pop() if flavour in ("A", "LA") else None     # the outsider whose key package the crafted Add proposals carry
     left, xtargets = set(), set()                          # clients that asked to leave; targets of crafted Remove proposals
     regime = regime or rng.choice(["inorder", "causal", "unrestricted"])
     apply_mode = {c: rng.choice(["echo", "echo", "immediate"]) for c in range(n + outsiders)}
@@ -275,8 +274,7 @@ def gen_race_history(w, rng, tier, regime=None, restarts=True, ties=True, p_rewr
         new = []
         # an admin adds an outsider — outside any race, applied by everybody in order — and the newcomer joins by its welcome
         if pool and rng.random() < p_add:
-            adders = [c for c in alive if c in view_admins(w, c) and (w.fps.get(c) or {}).get("state") == "a"
-                      and not (flavour and (w.fps.get(c) or {}).get("pr"))]
+            adders = [c for c in alive if c in view_admins(w, c) and (w.fps.get(c) or {}).get("state") == "a"]
             if adders:
                 a = rng.choice(adders); j = pool[0]; ts += 2
                 kp = w.kp_owner.index(j)
@@ -340,7 +338,7 @@ def gen_race_history(w, rng, tier, regime=None, restarts=True, ties=True, p_rewr
                 if k is not None:
                     new.append(k)
         # a member asks to leave (a proposal; an admin receiver auto-commits it)
-        if rng.random() < w.meta.get("p_leave", 0.0) and flavour == "L":
+        if rng.random() < w.meta.get("p_leave", 0.0) and flavour in ("L", "LA"):
             cands = [c for c in alive if c not in left and c not in xtargets and (w.fps.get(c) or {}).get("state") == "a"]
             for _ in range(rng.choice([1, 1, 2])):
                 if not cands:
@@ -351,7 +349,7 @@ def gen_race_history(w, rng, tier, regime=None, restarts=True, ties=True, p_rewr
                 if e is not None:
                     left.add(s); new.append(e)
                     w.events[e]["sub"] = "leave"
-        if flavour == "L" and rng.random() < p_xprop:
+        if flavour in ("L", "LA") and rng.random() < p_xprop:
             # a member (mostly a non-admin) crafts a stand-alone proposal with the MLS library: Remove of ANOTHER member
             # (one per target, never somebody who asked to leave), GroupContextExtensions, PSK
             a = rng.choice(alive)
@@ -369,7 +367,7 @@ def gen_race_history(w, rng, tier, regime=None, restarts=True, ties=True, p_rewr
                 e = w.publish(f"advprop {a} {what} - {tstamp}", "proposal", a)
                 if e is not None:
                     new.append(e); w.events[e]["sub"] = what
-        if flavour == "A" and rng.random() < p_xprop + 0.2:
+        if flavour in ("A", "LA") and rng.random() < p_xprop + (0.2 if flavour == "A" else 0.0):
             a = rng.choice(alive)
             e = w.publish(f"advprop {a} add {w.kp_owner.index(reserved)} {base + rng.choice([-6, 0, 2, 7])}", "proposal", a)
             if e is not None:
@@ -1064,7 +1062,10 @@ def fp_view(fp, skip_recs=(), nids=None):
     msgs = ",".join(f"{m['id']}:{m['author']}:{m['state']}:{m['epoch']}:{m['wrapper']}:{m['tok']}" for m in f["msgs"])
     recs = ",".join(f"{n}:{s}:{e}" for n, (s, e) in sorted(f["recs"].items()) if n not in skip_recs)
     nid = f["nid"] if nids is None else str(nids.setdefault(f["nid"], len(nids)))
-    return (str(f["epoch"]), str(f["token"]), f["members"], f["admins"], f["name"], f["desc"], nid, f["relays"], f["state"], f["pa"], f["pr"],
+    # an evicted member's pending adds / removes are its stale store resolved against a tree it is no longer part of (a queued
+    # Remove shows whoever sits on the target's leaf NOW — possibly a newcomer): leaf positions, not modelled, not compared
+    act = f["state"] == "a"
+    return (str(f["epoch"]), str(f["token"]), f["members"], f["admins"], f["name"], f["desc"], nid, f["relays"], f["state"], f["pa"] if act else "-", f["pr"] if act else "-",
             f["last"], msgs, recs, str(f["snaps"]), "-" if f.get("pendc") is None or f["state"] != "a" else str(f["pendc"]),
             "-" if f.get("queued") is None or f["state"] != "a" else str(f["queued"]))
 
